@@ -22,6 +22,16 @@ CLAIMED = {
         text="TLC proves exactly-once, partition and termination for the index queue's CAS protocol (3 threads, all interleavings) and checks every recorded concurrent history of the real index queue, Michael deque and the four lockfree back-ends (1-4 threads, hook-injected delays between anchor load and CAS) for linearizability against the sequential spec, including a quiescent drain that must return every remaining element exactly once",
         note="sequential consistency in the model; histories sampled; moodycamel ConcurrentQueue black-box; no fine-grained model of Michael's deque yet",
         design="5/C17"),
+    "C06": dict(
+        technique="TLA+ abstract spec MutexCvAbs (owner/depth/critical-section data, Call/Lin/Ret) model-checked by TLC + TLC trace validation of lock/try_lock/try_lock_until/unlock histories from the real mutexes, with quiescence (lost hand-over) detection",
+        text="TLC checks mutual exclusion, only-owner-writes and hand-over liveness on the abstract spec; every recorded history of pika::mutex, timed_mutex, recursive_mutex and spinlock (tasks migrating while holding the lock, timed attempts blocked behind long critical sections, detected misuse) must be a behaviour of it: a try_lock that fails on a free mutex, a stale critical-section value, a missing error or a blocked lock() on a free mutex at quiescence is rejected",
+        note="sequential consistency; sampled schedules; spinlock-based locks are not held across yields (they never yield to the scheduler, documented)",
+        design="5/C06"),
+    "C07": dict(
+        technique="TLA+ abstract spec MutexCvAbs (waiting/wake sets, predicate flag, stop request) model-checked by TLC + TLC trace validation of wait/notify/stop histories from the real condition variables with an 'owed wake-up' quiescence rule",
+        text="TLC checks that a due wake-up is always delivered (fair) on the abstract spec; recorded histories of condition_variable and condition_variable_any (plain, predicate, timed, stop-token forms; pika tasks and OS threads; notifiers with and without the user lock; delays injected at the cv.* hooks between unlock and suspend) must be behaviours of the spec: a waiter that is owed a wake-up but stays blocked, a timeout reported for a notified waiter, a wrong predicate result or a return without the user lock is rejected",
+        note="sequential consistency; sampled schedules; spurious wake-ups accepted; one open finding (timed wait on a plain OS thread deadlocks when notified) is listed in known_findings.json and only exercised by dedicated runs",
+        design="5/C07"),
 }
 
 NOT_YET = {}
